@@ -815,6 +815,7 @@ func (a *Agent) updateConnectionState(newState ConnectionState) {
 		a.log.Infof("Setting new connection state: %s", newState)
 		a.connectionState = newState
 		a.connectionStateNotifier.EnqueueConnectionState(newState)
+		verifhook.Yield("agent.updateConnectionState.afterEnqueue")
 	}
 }
 
